@@ -60,7 +60,7 @@ func (g *gctx) benign() string {
 }
 
 func (g *gctx) siblings() []string {
-	return []string{g.rootName + "-other", g.rootName + "x", "other", g.rootName + "-new", g.rootName + ".", g.rootName + " "}
+	return []string{g.rootName + "-other", g.rootName + "x", "other", g.rootName + "-old", g.rootName + "-new", g.rootName + ".", g.rootName + " "}
 }
 
 // relName generates a relative name (key, entry name, relative path) and the name of its class.
